@@ -1,4 +1,4 @@
-"""Tagged abstract interpretation of a CPython 3.12 code object.
+"""Tagged abstract interpretation of a CPython 3.12 (or 3.11) code object.
 
 State = tuple of tags for the value-stack slots (bottom first):
   None              anything that is not of interest
@@ -17,7 +17,8 @@ import sys
 import types
 from typing import Any, Dict, FrozenSet, List, Optional, Set, Tuple
 
-assert sys.version_info[:2] == (3, 12), "ai312 models CPython 3.12 bytecode"
+assert sys.version_info[:2] in ((3, 11), (3, 12)), "this module models CPython 3.11 / 3.12 bytecode"
+PY311 = sys.version_info[:2] == (3, 11)
 
 State = Tuple[Any, ...]
 op = dis.opmap
@@ -72,14 +73,21 @@ FIXED: Dict[str, Tuple[int, int]] = {
     "PUSH_EXC_INFO": (1, 2), "CHECK_EXC_MATCH": (2, 2), "CHECK_EG_MATCH": (2, 2), "MATCH_CLASS": (3, 1),
     "LOAD_FROM_DICT_OR_DEREF": (1, 1), "LOAD_FROM_DICT_OR_GLOBALS": (1, 1), "SETUP_ANNOTATIONS": (0, 0),
     "END_ASYNC_FOR": (2, 0), "LOAD_SUPER_ATTR": (3, 1),
+    # 3.11 only
+    "PRECALL": (0, 0), "LOAD_METHOD": (1, 2), "ASYNC_GEN_WRAP": (1, 1), "LIST_TO_TUPLE": (1, 1), "UNARY_POSITIVE": (1, 1),
+    "PRINT_EXPR": (1, 0), "IMPORT_STAR": (1, 0), "LOAD_CLASSDEREF": (0, 1), "PREP_RERAISE_STAR": (2, 1),
 }
-COND_JUMPS = {"POP_JUMP_IF_TRUE", "POP_JUMP_IF_FALSE", "POP_JUMP_IF_NONE", "POP_JUMP_IF_NOT_NONE"}
+COND_JUMPS = {"POP_JUMP_IF_TRUE", "POP_JUMP_IF_FALSE", "POP_JUMP_IF_NONE", "POP_JUMP_IF_NOT_NONE",
+              # 3.11 spellings
+              "POP_JUMP_FORWARD_IF_TRUE", "POP_JUMP_FORWARD_IF_FALSE", "POP_JUMP_FORWARD_IF_NONE", "POP_JUMP_FORWARD_IF_NOT_NONE",
+              "POP_JUMP_BACKWARD_IF_TRUE", "POP_JUMP_BACKWARD_IF_FALSE", "POP_JUMP_BACKWARD_IF_NONE", "POP_JUMP_BACKWARD_IF_NOT_NONE"}
+OR_POP_JUMPS = {"JUMP_IF_TRUE_OR_POP", "JUMP_IF_FALSE_OR_POP"}
 UNCOND_JUMPS = {"JUMP_FORWARD", "JUMP_BACKWARD", "JUMP_BACKWARD_NO_INTERRUPT"}
 TERMINAL = {"RETURN_VALUE", "RETURN_CONST", "RERAISE", "RAISE_VARARGS", "INTERPRETER_EXIT"}
 # instructions that can never raise (keeps the exception-edge over-approximation tight where it matters)
 NO_RAISE = {"NOP", "RESUME", "POP_TOP", "PUSH_NULL", "LOAD_CONST", "COPY", "SWAP", "JUMP_FORWARD", "JUMP_BACKWARD_NO_INTERRUPT",
             "LOAD_FAST", "STORE_FAST", "PUSH_EXC_INFO", "POP_EXCEPT", "RETURN_GENERATOR", "KW_NAMES", "MAKE_CELL",
-            "COPY_FREE_VARS", "END_SEND", "END_FOR", "POP_JUMP_IF_NONE", "POP_JUMP_IF_NOT_NONE", "CACHE", "EXTENDED_ARG"}
+            "COPY_FREE_VARS", "END_SEND", "END_FOR", "POP_JUMP_IF_NONE", "POP_JUMP_IF_NOT_NONE", "CACHE", "EXTENDED_ARG", "PRECALL"}
 
 
 class Analysis:
@@ -166,9 +174,11 @@ class Analysis:
             a = list(st)
             a[-1] = None
             go(nxt, a)
-            # jump: receiver returned -> (receiver, retval) at END_SEND
+            # jump: receiver returned -> 3.12: (receiver, retval) at END_SEND; 3.11: receiver popped, (retval)
             b = list(st)
             b[-1] = None
+            if PY311:
+                b.pop(-2)
             go(ins.argval, b)
         elif name == "END_SEND":
             need(2)
@@ -188,18 +198,26 @@ class Analysis:
             need(1)
             a = list(st) + [None]
             go(nxt, a)
-            # exhausted: pops the iterator and skips the END_FOR at the target
+            # exhausted: pops the iterator and (3.12) skips the END_FOR at the target
             b = list(st)
             b.pop()
             tgt = ins.argval
-            if self.by_off[tgt].opname != "END_FOR":
-                raise Unsupported("FOR_ITER target is not END_FOR")
-            go(self.next_off[tgt], b)
+            if PY311:
+                go(tgt, b)
+            else:
+                if self.by_off[tgt].opname != "END_FOR":
+                    raise Unsupported("FOR_ITER target is not END_FOR")
+                go(self.next_off[tgt], b)
         elif name in COND_JUMPS:
             need(1)
             st.pop()
             go(nxt, list(st))
             go(ins.argval, list(st))
+        elif name in OR_POP_JUMPS:
+            need(1)
+            go(ins.argval, list(st))
+            st.pop()
+            go(nxt, st)
         elif name in UNCOND_JUMPS:
             go(ins.argval, st)
         elif name in TERMINAL:
@@ -207,7 +225,8 @@ class Analysis:
         elif name == "LOAD_ATTR":
             need(1)
             st.pop()
-            st += [None, None] if (ins.arg & 1) else [None]
+            # 3.12 folds LOAD_METHOD into LOAD_ATTR (low bit of the oparg); 3.11's oparg is just the name index
+            st += [None, None] if ((ins.arg & 1) and not PY311) else [None]
             go(nxt, st)
         elif name == "LOAD_GLOBAL":
             st += [None, None] if (ins.arg & 1) else [None]
@@ -342,6 +361,13 @@ class Analysis:
             return False  # exception-path exits (WITH_EXCEPT_START) are anchored at the handler itself
         code = self.code.co_code
         off = call_off
+        if PY311:
+            # LOAD_CONST x3, PRECALL 2, CACHE, CALL 2: step back over the PRECALL and its cache entries
+            off -= 2
+            while off >= 2 and code[off] == op["CACHE"]:
+                off -= 2
+            if code[off] != op["PRECALL"]:
+                return True
         for _ in range(3):
             off -= 2
             while off >= 2 and code[off - 2] == op["EXTENDED_ARG"]:
